@@ -213,7 +213,18 @@ func runC07(c *core.Ctx) {
 				}
 			}
 		}
-		bounds = append(bounds, fmt.Sprintf("%d programs x 7 ways of evaluating them in an interpreter state made on the side (unjson, eval)", len(inner)))
+		// macro bodies are code too: evaluated at expansion time by a state made on the side
+		bodies := []string{"println(1)", "print(\"a\"); quote(unquote(x))", "1 + 1", "f = func(n) { if n == 0 { 0 } else { f(n - 1) } }; f(3); quote(unquote(x))", "max(1, 2); quote(unquote(x) + 1)", "log(\"l\"); quote(unquote(x))",
+			"[1, 2][5]", "1 / 0", "error(\"e\")", "for i = 3 { i }; quote(unquote(x))", "y = quote(unquote(x)); y", "if true { quote(unquote(x)) } else { 2 }", "eval(\"1\"); quote(unquote(x))", "unjson(\"[1]\"); quote(1)", "info; quote(unquote(x))", "self",
+			"catch(1 / 0); quote(unquote(x))", "sprintf(\"%v\", 1); quote(unquote(x))", "vfn(1); quote(unquote(x))", "va2[0]; quote(unquote(x))", "return quote(unquote(x))", "(() => quote(1))()", "mm = macro(z) { quote(unquote(z)) }; quote(unquote(x))"}
+		for _, b := range bodies {
+			for _, use := range []string{"mb(1)", "mb(1); mb(2)", "println(catch(mb(va2)))", "func() { mb(1) }()", "for 2 { mb(1) }", "eval(\"mb(1)\")"} {
+				if ok = do("macrobody", prelude, "mb = macro(x) { "+b+" }; "+use); !ok {
+					break
+				}
+			}
+		}
+		bounds = append(bounds, fmt.Sprintf("%d programs x 7 ways of evaluating them in an interpreter state made on the side (unjson, eval); %d macro bodies (printing, calling functions and extensions, failing, control flow) x 6 uses", len(inner), len(bodies)))
 	}
 	// 2. binary and ternary forms x every value in every position
 	if ok {
